@@ -17,7 +17,12 @@ root == <<>>
 GenInit == MCInit \cup {
   [q |-> <<Q(n255, TA)>>, an |-> <<R(n255, TCNAME, c63 \o ab, <<>>, <<>>)>>, ns |-> <<>>, ar |-> <<R(c63 \o ab, TA, <<>>, <<>>, <<8,8,8,8>>)>>],
   [q |-> <<Q(root, TNS)>>, an |-> <<R(root, TNS, ab, <<>>, <<>>), R(ab, TMX, root, <<>>, <<0>>)>>, ns |-> <<>>, ar |-> <<R(ab, TA, <<>>, <<>>, <<10,0,0,1>>)>>],
-  [q |-> <<Q(l34, TPTR)>>, an |-> <<R(l34, TPTR, ab, <<>>, <<>>)>>, ns |-> <<R(ab, TNS, c63, <<>>, <<>>)>>, ar |-> <<>>] }
+  [q |-> <<Q(l34, TPTR)>>, an |-> <<R(l34, TPTR, ab, <<>>, <<>>)>>, ns |-> <<R(ab, TNS, c63, <<>>, <<>>)>>, ar |-> <<>>],
+  \* records BEHIND every insertion point whose OWNER name is partially compressed (a label, then a pointer to "b" in the first
+  \* section), followed by records whose owner is a pointer to a name that is written out behind the insertion point
+  [q |-> <<Q(b, TA)>>, an |-> <<R(b, TA, <<>>, <<>>, <<1,1,1,1>>)>>, ns |-> <<R(ab, TNS, c63, <<>>, <<>>)>>, ar |-> <<R(c63, TA, <<>>, <<>>, <<2,2,2,2>>)>>],
+  [q |-> <<>>, an |-> <<R(b, TA, <<>>, <<>>, <<3,3,3,3>>)>>, ns |-> <<>>,
+        ar |-> <<R(ab, TMX, c63, <<>>, <<5>>), R(bab, TSOA, c63, l34, Z20), R(l34, TA, <<>>, <<>>, <<6,6,6,6>>), R(c63, TA, <<>>, <<>>, <<7,7,7,7>>)>>] }
 \* record types libtins has no typed view for (MB 7, MG 8, MR 9, an unassigned one): their data are opaque octets - also when they
 \* look like a name or contain the octets of a compression pointer
 GenNew == MCNew \cup { R(a, 7, <<>>, <<>>, <<1, 97, 192, 12>>), R(ab, 8, <<>>, <<>>, <<192, 12>>), R(b, 9, <<>>, <<>>, <<3, 119, 119, 119, 0>>),
